@@ -102,7 +102,7 @@ fn main() {
             res.nontrivial += 1;
             res.classes.insert(o.class);
         }
-        if samples < 2 && nontrivial && h.steps.len() <= 16 && o.alarms.is_empty() {
+        if samples < 2 && nontrivial && (h.steps.len() <= 16 || i >= 40) && o.alarms.is_empty() {
             samples += 1;
             res.samples.push(json!({"case": case, "history": h}));
         }
